@@ -41,6 +41,7 @@ import (
 	"github.com/honeycombio/refinery/transmit"
 	"github.com/honeycombio/refinery/types"
 	"github.com/jonboulle/clockwork"
+	"github.com/klauspost/compress/zstd"
 
 	"verif/engine/ev"
 	"verif/fix/codec"
@@ -190,17 +191,29 @@ func (timeoutError) Temporary() bool { return true }
 func (n *memnet) RoundTrip(r *http.Request) (*http.Response, error) {
 	q := &request{Host: r.URL.Scheme + "://" + r.URL.Host, Path: r.URL.EscapedPath(), Key: r.Header.Get("X-Honeycomb-Team"),
 		ContentEncoding: r.Header.Get("Content-Encoding"), ContentType: r.Header.Get("Content-Type")}
+	// The body is decoded while the sender is still inside RoundTrip, under one lock and into reusable buffers:
+	// nothing of it is retained (only sizes, ids and field values), so MB-sized bodies are never copied twice.
+	decMu.Lock()
 	var raw []byte
 	if r.Body != nil {
-		b, err := io.ReadAll(r.Body)
+		var err error
+		if wt, ok := r.Body.(io.WriterTo); ok {
+			var cw captureWriter
+			_, err = wt.WriteTo(&cw)
+			raw = cw.bytes()
+		} else {
+			rscratch.Reset()
+			_, err = rscratch.ReadFrom(r.Body)
+			raw = rscratch.Bytes()
+		}
 		r.Body.Close()
 		if err != nil {
 			q.Problem = "body read: " + err.Error()
 		}
-		raw = b
 	}
 	q.RawLen = len(raw)
 	decodeRequest(q, r.Method, raw)
+	decMu.Unlock()
 	c := &call{req: q, reply: make(chan reply, 1)}
 	n.mu.Lock()
 	n.arrived++
@@ -225,6 +238,43 @@ func (n *memnet) RoundTrip(r *http.Request) (*http.Response, error) {
 		ContentLength: int64(len(rep.body)), Request: r}, nil
 }
 
+// reusable decoding state, guarded by decMu
+var (
+	decMu    sync.Mutex
+	zdec, _  = zstd.NewReader(nil, zstd.WithDecoderConcurrency(1))
+	zscratch []byte
+	rscratch bytes.Buffer
+)
+
+// captureWriter receives the body of a request. bytes.Reader.WriteTo (the body DirectTransmission sends) hands
+// over its remaining bytes in ONE Write call; in that case the slice is used in place (until RoundTrip has
+// decoded it, during which the sender is blocked in this very call) instead of being copied.
+type captureWriter struct {
+	first []byte
+	buf   []byte
+	n     int
+}
+
+func (c *captureWriter) Write(p []byte) (int, error) {
+	c.n++
+	switch c.n {
+	case 1:
+		c.first = p
+	case 2:
+		c.buf = append(append(rscratch.Bytes()[:0], c.first...), p...)
+	default:
+		c.buf = append(c.buf, p...)
+	}
+	return len(p), nil
+}
+
+func (c *captureWriter) bytes() []byte {
+	if c.n <= 1 {
+		return c.first
+	}
+	return c.buf
+}
+
 func decodeRequest(q *request, method string, raw []byte) {
 	const pfx = "/1/batch/"
 	if method != "POST" || !strings.HasPrefix(q.Path, pfx) {
@@ -237,9 +287,18 @@ func decodeRequest(q *request, method string, raw []byte) {
 		return
 	}
 	q.Dataset = ds
-	body, err := codec.Decompress(q.ContentEncoding, raw)
-	if err != nil {
-		q.Problem = "content-encoding: " + err.Error()
+	body := raw
+	switch q.ContentEncoding {
+	case "":
+	case "zstd":
+		body, err = zdec.DecodeAll(raw, zscratch[:0])
+		if err != nil {
+			q.Problem = "content-encoding zstd: " + err.Error()
+			return
+		}
+		zscratch = body
+	default:
+		q.Problem = "content-encoding " + q.ContentEncoding
 		return
 	}
 	q.BodyLen = len(body)
@@ -247,74 +306,158 @@ func decodeRequest(q *request, method string, raw []byte) {
 		q.Problem = "content-type " + q.ContentType
 		return
 	}
-	// array header
 	if len(body) == 0 {
 		q.Problem = "empty body"
 		return
 	}
-	var n int
-	rest := body
-	switch c := body[0]; {
-	case c >= 0x90 && c <= 0x9f:
-		n, rest = int(c&0x0f), body[1:]
-	case c == 0xdc && len(body) >= 3:
-		n, rest = int(body[1])<<8|int(body[2]), body[3:]
-	case c == 0xdd && len(body) >= 5:
-		n, rest = int(body[1])<<24|int(body[2])<<16|int(body[3])<<8|int(body[4]), body[5:]
-	default:
-		q.Problem = fmt.Sprintf("body is not a msgpack array (lead 0x%02x)", c)
+	n, rest, ok := mpHeader(body, 0x90, 0xdc)
+	if !ok {
+		q.Problem = fmt.Sprintf("body is not a msgpack array (lead 0x%02x)", body[0])
 		return
 	}
 	for i := 0; i < n; i++ {
-		v, r2, err := codec.Decode(rest)
+		we, r2, err := decodeMember(rest)
 		if err != nil {
 			q.Problem = fmt.Sprintf("batch member %d: %v", i, err)
 			return
 		}
-		we := wireEvent{WireSize: len(rest) - len(r2)}
+		we.WireSize = len(rest) - len(r2)
 		rest = r2
-		if v.Kind != codec.KMap {
-			we.Problem = "member is " + v.Kind.String()
-		} else {
-			if t, ok := v.Get("time"); ok && t.Kind == codec.KTime {
-				we.Time = t.T
-			} else {
-				we.Problem = "no timestamp-extension time"
-			}
-			if s, ok := v.Get("samplerate"); ok && s.Kind == codec.KInt {
-				we.SampleRate = s.Int
-			} else if ok && s.Kind == codec.KUint {
-				we.SampleRate = int64(s.Uint)
-			} else {
-				we.Problem = "no integer samplerate"
-			}
-			if d, ok := v.Get("data"); ok && d.Kind == codec.KMap {
-				if x, ok := d.Get("id"); ok {
-					we.ID = x.S
-				}
-				if x, ok := d.Get("dest"); ok {
-					we.Dest = x.S
-				}
-				if x, ok := d.Get("pad"); ok && x.Kind == codec.KStr {
-					we.PadLen = len(x.S)
-					if strings.Trim(x.S, "x") != "" {
-						we.Problem = "pad content altered"
-					}
-				} else {
-					we.PadLen = -1
-				}
-				if len(d.Map) != 3 {
-					we.Problem = fmt.Sprintf("data has %d fields, want 3", len(d.Map))
-				}
-			} else {
-				we.Problem = "no data map"
-			}
-		}
 		q.Events = append(q.Events, we)
 	}
 	if len(rest) != 0 {
 		q.Problem = fmt.Sprintf("%d trailing bytes after the batch array", len(rest))
 	}
+}
+
+// mpHeader reads an array (fix 0x90, 16-bit 0xdc) or map (fix 0x80, 16-bit 0xde) header; the 32-bit form
+// has lead16+1.
+func mpHeader(b []byte, fix, lead16 byte) (n int, rest []byte, ok bool) {
+	if len(b) == 0 {
+		return 0, nil, false
+	}
+	switch c := b[0]; {
+	case c&0xf0 == fix:
+		return int(c & 0x0f), b[1:], true
+	case c == lead16 && len(b) >= 3:
+		return int(b[1])<<8 | int(b[2]), b[3:], true
+	case c == lead16+1 && len(b) >= 5:
+		return int(b[1])<<24 | int(b[2])<<16 | int(b[3])<<8 | int(b[4]), b[5:], true
+	}
+	return 0, nil, false
+}
+
+// mpValue decodes one value with the fixture's own decoder, except that long strings (str16/str32) are
+// returned as a sub-slice of b instead of being copied (events of ≈ 1 MB are mostly one such string).
+func mpValue(b []byte) (v codec.Value, long []byte, rest []byte, err error) {
+	if len(b) >= 3 && b[0] == 0xda {
+		n := int(b[1])<<8 | int(b[2])
+		if len(b) < 3+n {
+			return v, nil, nil, fmt.Errorf("short str16")
+		}
+		return codec.Value{Kind: codec.KStr}, b[3 : 3+n], b[3+n:], nil
+	}
+	if len(b) >= 5 && b[0] == 0xdb {
+		n := int(b[1])<<24 | int(b[2])<<16 | int(b[3])<<8 | int(b[4])
+		if n < 0 || len(b) < 5+n {
+			return v, nil, nil, fmt.Errorf("short str32")
+		}
+		return codec.Value{Kind: codec.KStr}, b[5 : 5+n], b[5+n:], nil
+	}
+	v, rest, err = codec.Decode(b)
+	return v, nil, rest, err
+}
+
+func decodeMember(b []byte) (we wireEvent, rest []byte, err error) {
+	we.PadLen = -1
+	n, rest, ok := mpHeader(b, 0x80, 0xde)
+	if !ok {
+		// not a map: skip it with the generic decoder so that the caller can go on
+		_, rest, err = codec.Decode(b)
+		we.Problem = "member is not a map"
+		return we, rest, err
+	}
+	var haveTime, haveRate, haveData bool
+	for i := 0; i < n; i++ {
+		var k codec.Value
+		if k, _, rest, err = mpValue(rest); err != nil {
+			return
+		}
+		if k.S == "data" {
+			dn, r2, ok := mpHeader(rest, 0x80, 0xde)
+			if !ok {
+				we.Problem = "data is not a map"
+				if _, rest, err = codec.Decode(rest); err != nil {
+					return
+				}
+				continue
+			}
+			rest = r2
+			haveData = true
+			if dn != 3 {
+				we.Problem = fmt.Sprintf("data has %d fields, want 3", dn)
+			}
+			for j := 0; j < dn; j++ {
+				var dk, dv codec.Value
+				var long []byte
+				if dk, _, rest, err = mpValue(rest); err != nil {
+					return
+				}
+				if dv, long, rest, err = mpValue(rest); err != nil {
+					return
+				}
+				str := dv.S
+				if long != nil {
+					str = ""
+				}
+				switch dk.S {
+				case "id":
+					we.ID = str
+				case "dest":
+					we.Dest = str
+				case "pad":
+					if dv.Kind != codec.KStr {
+						break
+					}
+					p := long
+					if p == nil {
+						p = []byte(dv.S)
+					}
+					we.PadLen = len(p)
+					if bytes.Count(p, []byte{'x'}) != len(p) {
+						we.Problem = "pad content altered"
+					}
+				}
+			}
+			continue
+		}
+		var v codec.Value
+		if v, _, rest, err = mpValue(rest); err != nil {
+			return
+		}
+		switch k.S {
+		case "time":
+			if v.Kind == codec.KTime {
+				we.Time, haveTime = v.T, true
+			}
+		case "samplerate":
+			if v.Kind == codec.KInt {
+				we.SampleRate, haveRate = v.Int, true
+			} else if v.Kind == codec.KUint {
+				we.SampleRate, haveRate = int64(v.Uint), true
+			}
+		}
+	}
+	switch {
+	case we.Problem != "":
+	case !haveTime:
+		we.Problem = "no timestamp-extension time"
+	case !haveRate:
+		we.Problem = "no integer samplerate"
+	case !haveData:
+		we.Problem = "no data map"
+	}
+	return we, rest, nil
 }
 
 // takeParked returns the parked round trips in canonical order (destination triple, event ids, arrival).
@@ -530,12 +673,23 @@ var memberOverhead = -1 // serialized size of a member with a str32 pad of lengt
 
 func padFor(size int) int { return size - memberOverhead }
 
+var padCache = map[int]string{}
+
+func pad(n int) string {
+	p, ok := padCache[n]
+	if !ok {
+		p = strings.Repeat("x", n)
+		padCache[n] = p
+	}
+	return p
+}
+
 func (w *world) mkEvent(id string, d dest, padLen int) (*types.Event, *sentEvent) {
 	i := len(w.order)
 	ts := t0.Add(-time.Hour).Add(time.Duration(i) * time.Second)
 	rate := uint(i + 1)
 	e := &types.Event{Context: context.Background(), APIHost: d.Host, APIKey: d.Key, Dataset: d.Dataset, SampleRate: rate, Timestamp: ts,
-		Data: types.NewPayload(mockCfg, map[string]any{"id": id, "dest": d.Name, "pad": strings.Repeat("x", padLen)})}
+		Data: types.NewPayload(mockCfg, map[string]any{"id": id, "dest": d.Name, "pad": pad(padLen)})}
 	s := &sentEvent{ID: id, Dest: d, PadLen: padLen, TS: ts, Rate: rate, Enq: w.now()}
 	return e, s
 }
